@@ -63,7 +63,7 @@ func runC11(r *mc.Run) {
 			fcase := c.Choose("fmspc-case", 2)
 			lpos := c.Choose("level-position", 4)
 			svn1 := c.Choose("tee-svn1", 3)
-			qmask := c.Choose("qe-masks", 3)
+			qmask := c.Choose("qe-masks", 5)
 			crl := c.Choose("crl-contents", 6)
 			tm := c.Choose("times", 3)
 			pool := c.Choose("pool", 3)
@@ -143,6 +143,14 @@ func runC11(r *mc.Run) {
 			tee := p.Body[0:16]
 			ti := world.DefaultTcbInfo(w.Plat, tee)
 			ti.TdxModule = world.TdxModule{Mrsigner: hexs(sp.MrSeamSigner), Attributes: "0102030405060708", AttributesMask: "FFFFFFFFFFFFFFFF"}
+			switch c.Choose("seam-attributes-mask", 4) {
+			case 1: // zero octets between significant ones
+				ti.TdxModule.Attributes, ti.TdxModule.AttributesMask = "0100030005000700", "FF00FF00FF00FF00"
+			case 2: // ... in front
+				ti.TdxModule.Attributes, ti.TdxModule.AttributesMask = "0002030405060708", "00FFFFFFFFFFFFFF"
+			case 3: // a single significant bit at the far end
+				ti.TdxModule.Attributes, ti.TdxModule.AttributesMask = "0000000000000008", "0000000000000008"
+			}
 			if fcase == 1 {
 				ti.Fmspc = strings.ToUpper(ti.Fmspc)
 			}
@@ -245,6 +253,22 @@ func runC11(r *mc.Run) {
 			case 2: // all-zero masks
 				qe.Miscselect, qe.MiscselectMask = "00000000", "00000000"
 				qe.Attributes, qe.AttributesMask = strings.Repeat("00", 16), strings.Repeat("00", 16)
+			case 3, 4: // masks with zero octets in FRONT of / BETWEEN significant ones; the identity's value is the masked report value
+				mm, am := "00ffffff", "00ffffffffffffffffffffffffffffff"
+				if qmask == 4 {
+					mm, am = "ff00ff00", "ff00ff00ff00ff00ff00ff00ff00ff00"
+				}
+				and := func(v []byte, maskHex string) string {
+					out := make([]byte, len(v))
+					for i := range v {
+						var mb byte
+						fmt.Sscanf(maskHex[2*i:2*i+2], "%02x", &mb)
+						out[i] = v[i] & mb
+					}
+					return hexs(out)
+				}
+				qe.Miscselect, qe.MiscselectMask = and(ms, mm), mm
+				qe.Attributes, qe.AttributesMask = and(p.QEReport[48:64], am), am
 			}
 			qe.TcbLevels = []world.Level{{Tcb: world.Tcb{Isvsvn: world.IntP(9)}, TcbDate: "2029-07-01T00:00:00Z", TcbStatus: "OutOfDate"},
 				{Tcb: world.Tcb{Isvsvn: world.IntP(8)}, TcbDate: "2029-06-01T00:00:00Z", TcbStatus: "UpToDate"},
